@@ -11,6 +11,21 @@ Arguments BATCH : simpl never.
 
 Lemma HS_pos : 0 < HS. Proof. unfold HS. lia. Qed.
 
+(* lia does not see nat division here: name quotient and remainder *)
+Ltac nateuc a b :=
+  let H1 := fresh "Hdm" in let H2 := fresh "Hlt" in
+  pose proof (Nat.div_mod_eq a b) as H1;
+  assert (H2 : a mod b < b) by (apply Nat.mod_upper_bound; lia);
+  generalize dependent (a / b); generalize dependent (a mod b); intros.
+Ltac euc :=
+  unfold HS, BATCH, CHUNK in *;
+  repeat match goal with
+  | |- context [?a / ?b] => nateuc a b
+  | |- context [?a mod ?b] => nateuc a b
+  | H : context [?a / ?b] |- _ => nateuc a b
+  | H : context [?a mod ?b] |- _ => nateuc a b
+  end; lia.
+
 (* ------------------------------------------------------------------------------------------ *)
 (* lists                                                                                      *)
 (* ------------------------------------------------------------------------------------------ *)
@@ -182,6 +197,12 @@ Proof.
   rewrite chunks_snoc, adv_snoc, chunks_snoc, adv_snoc. reflexivity.
 Qed.
 
+(* index form: the headers one and two below position k of a chain *)
+Definition prev1 (hs : list bytes) (k : nat) : option bytes :=
+  match k with O => None | S j => nth_error hs j end.
+Definition prev2 (hs : list bytes) (k : nat) : option bytes :=
+  match k with S (S j) => nth_error hs j | _ => None end.
+
 Section Chain.
 Variables sha256 sha512 rmd160 : bytes -> bytes.
 Local Notation dsha := (dsha sha256).
@@ -189,6 +210,36 @@ Local Notation pow_value := (pow_value sha256 sha512 rmd160).
 Local Notation check_header := (check_header sha256 sha512 rmd160).
 Local Notation validate := (validate sha256 sha512 rmd160).
 Local Notation connect := (connect sha256 sha512 rmd160).
+
+(* the rules of validate_header, as a proposition *)
+Definition header_rules (c : cfg) (pp p : option bytes) (x : bytes) : Prop :=
+  match p with
+  | None => match genesis c with Some g => dsha x = g | None => True end
+  | Some pr =>
+      h_prev x = dsha pr /\
+      (validate_difficulty c = true ->
+       h_bits x = compact (next_target (max_target c) pp p) /\
+       (pow_value x <= next_target (max_target c) pp p)%N)
+  end.
+
+Lemma check_header_rules c pp p x : check_header c pp p x = None <-> header_rules c pp p x.
+Proof.
+  unfold check_header, header_rules. destruct p as [pr|].
+  - destruct (bytes_eqb (h_prev x) (dsha pr)) eqn:E1; cbn [negb].
+    + apply bytes_eqb_eq in E1. destruct (validate_difficulty c).
+      * destruct (N.eqb (h_bits x) (compact (next_target (max_target c) pp (Some pr)))) eqn:E2; cbn [negb].
+        -- apply N.eqb_eq in E2.
+           destruct (N.ltb (next_target (max_target c) pp (Some pr)) (pow_value x)) eqn:E3.
+           ++ apply N.ltb_lt in E3. split; [discriminate|]. intros [_ H]. destruct (H eq_refl) as [_ H']. lia.
+           ++ apply N.ltb_ge in E3. split; auto.
+        -- apply N.eqb_neq in E2. split; [discriminate|]. intros [_ H]. destruct (H eq_refl) as [H' _]. congruence.
+      * split; auto. intros _. split; [exact E1 | discriminate].
+    + apply bytes_eqb_neq in E1. split; [discriminate|]. intros [H _]. congruence.
+  - destruct (genesis c) as [g|]; [|tauto].
+    destruct (bytes_eqb (dsha x) g) eqn:E.
+    + apply bytes_eqb_eq in E. tauto.
+    + apply bytes_eqb_neq in E. split; [discriminate | congruence].
+Qed.
 
 Lemma validate_app c a : forall pp p b,
   validate c pp p (a ++ b) =
@@ -202,6 +253,35 @@ Proof.
 Qed.
 
 Definition valid_chain (c : cfg) (hs : list bytes) : Prop := validate c None None hs = None.
+
+(* every header of the chain obeys the rules relative to the two headers below it *)
+Definition chain_rules (c : cfg) (hs : list bytes) : Prop :=
+  forall k x, nth_error hs k = Some x -> header_rules c (prev2 hs k) (prev1 hs k) x.
+
+Lemma validate_rules c hs : forall pp p,
+  validate c pp p hs = None <->
+  (forall k x, nth_error hs k = Some x ->
+     header_rules c (match k with O => pp | S O => p | S (S j) => nth_error hs j end)
+                    (match k with O => p | S j => nth_error hs j end) x).
+Proof.
+  induction hs as [|y r IH]; intros pp p.
+  - split; [|reflexivity]. intros _ k x H. destruct k; discriminate.
+  - cbn [validate]. destruct (check_header c pp p y) eqn:E.
+    + split; [discriminate|]. intro H. specialize (H 0 y eq_refl). apply check_header_rules in H. congruence.
+    + rewrite IH. apply check_header_rules in E. split.
+      * intros H k x Hk. destruct k as [|k]; [cbn in Hk; inversion Hk; subst; exact E|].
+        cbn [nth_error] in Hk. specialize (H k x Hk).
+        destruct k as [|[|j]]; exact H.
+      * intros H k x Hk. specialize (H (S k) x Hk).
+        destruct k as [|[|j]]; exact H.
+Qed.
+
+Lemma valid_chain_rules c hs : valid_chain c hs <-> chain_rules c hs.
+Proof.
+  unfold valid_chain, chain_rules. rewrite validate_rules. split; intros H k x Hk; specialize (H k x Hk).
+  - destruct k as [|[|j]]; exact H.
+  - destruct k as [|[|j]]; exact H.
+Qed.
 
 Lemma valid_chain_app c a b :
   valid_chain c (a ++ b) <->
@@ -227,6 +307,14 @@ Proof.
   rewrite <- below_adv. exact H.
 Qed.
 
+Lemma valid_extension_inv c iob start hs :
+  valid_chain c (chunks start iob ++ hs) ->
+  validate c (below2 iob start) (below1 iob start) hs = None.
+Proof.
+  intros V. apply valid_chain_app in V. destruct V as [_ V].
+  rewrite <- below_adv in V. exact V.
+Qed.
+
 (* ------------------------------------------------------------------------------------------ *)
 (* connect                                                                                    *)
 (* ------------------------------------------------------------------------------------------ *)
@@ -235,31 +323,30 @@ Definition stored (r : cres) : bool := match r with COk (S _) => true | _ => fal
 Lemma connect_cases c s start batch s' r : connect c s start batch = (s', r) ->
   (exists n, r = COk (S n) /\ length batch = HS * S n /\ start <= hsize s /\
      validate c (below2 (io s) start) (below1 (io s) start) (chunks (S n) batch) = None /\
-     s' = do_write s start batch)
+     s' = connect_write s start batch)
   \/ (s' = s /\ stored r = false).
 Proof.
-  unfold connect. intro H.
+  unfold connect. remember (length batch / HS) as q eqn:En. intro H.
   destruct (Nat.eqb (length batch mod HS) 0) eqn:Em; cbn [negb] in H.
   2:{ inversion H; subst. right. auto. }
   destruct (Nat.ltb (hsize s) start) eqn:El.
   { inversion H; subst. right. auto. }
-  destruct (validate c (below2 (io s) start) (below1 (io s) start) (chunks (length batch / HS) batch)) eqn:Ev.
+  destruct (validate c (below2 (io s) start) (below1 (io s) start) (chunks q batch)) eqn:Ev.
   { inversion H; subst. right. auto. }
   destruct batch as [|b0 br] eqn:Eb.
   { inversion H; subst. right. auto. }
   rewrite <- Eb in *. inversion H; subst s' r. clear H.
   apply Nat.eqb_eq in Em. apply Nat.ltb_ge in El.
   assert (Hl : length batch <> 0) by (subst batch; cbn; lia).
-  destruct (length batch / HS) as [|n] eqn:En.
-  { exfalso. unfold HS in *. lia. }
-  left. exists n. repeat split; try assumption.
-  unfold HS in *. lia.
+  destruct q as [|n].
+  { exfalso. clear Ev. euc. }
+  left. exists n. split; [reflexivity|]. split; [clear Ev; euc|]. auto.
 Qed.
 
 Lemma connect_accepts c s start batch n :
   length batch = HS * S n -> start <= hsize s ->
   validate c (below2 (io s) start) (below1 (io s) start) (chunks (S n) batch) = None ->
-  connect c s start batch = (do_write s start batch, COk (S n)).
+  connect c s start batch = (connect_write s start batch, COk (S n)).
 Proof.
   intros L Hs V. unfold connect.
   assert (Em : length batch mod HS = 0) by (rewrite L, Nat.mul_comm; apply Nat.mod_mul; unfold HS; lia).
@@ -270,93 +357,390 @@ Proof.
   destruct batch as [|b0 br]; [cbn in L; unfold HS in L; lia | reflexivity].
 Qed.
 
-Lemma do_write_chunks s start batch n : wf s -> start <= hsize s -> length batch = HS * S n ->
-  let s' := do_write s start batch in
-  chunks (start + S n) (io s') = chunks start (io s) ++ chunks (S n) batch
-  /\ hsize s' = Nat.max (hsize s) (start + S n) /\ wf s'
-  /\ firstn (HS * start) (io s') = firstn (HS * start) (io s)
-  /\ skipn (HS * (start + S n)) (io s') = skipn (HS * (start + S n)) (io s)
-  /\ firstn (length batch) (skipn (HS * start) (io s')) = batch.
+Lemma connect_write_spec s start batch n : wf s -> start <= hsize s -> length batch = HS * S n ->
+  let s' := connect_write s start batch in
+  io s' = firstn (HS * start) (io s) ++ batch
+  /\ hsize s' = start + S n
+  /\ length (io s') = HS * hsize s'
+  /\ missing s' = missing s
+  /\ chunks (start + S n) (io s') = chunks start (io s) ++ chunks (S n) batch.
 Proof.
   intros W Hs L. unfold wf in W. cbn zeta.
   assert (Hoff : HS * start <= length (io s)) by (unfold HS in *; nia).
   assert (Hne : batch <> []) by (intro E; subst; cbn in L; unfold HS in L; lia).
   assert (Hsz : (HS * start + length batch) / HS = start + S n).
-  { rewrite L. unfold HS. lia. }
-  unfold do_write; cbn [io hsize]. rewrite Hsz.
-  split; [|split; [reflexivity|split; [|split; [|split]]]].
-  - transitivity (chunks (start + S n) (firstn (HS * start) (io s) ++ batch)).
-    + apply chunks_ext. replace (HS * (start + S n)) with (HS * start + length batch) by (rewrite L; lia).
-      rewrite write_at_prefix by assumption.
-      rewrite firstn_all2; [reflexivity|]. rewrite app_length, firstn_length. lia.
-    + rewrite chunks_app by (rewrite firstn_length; lia). f_equal.
-      apply chunks_ext. rewrite firstn_firstn_le by lia. reflexivity.
-  - unfold wf; cbn [io hsize]. rewrite write_at_length by exact Hne. unfold HS in *. lia.
-  - apply write_at_firstn. exact Hoff.
-  - replace (HS * (start + S n)) with (HS * start + length batch) by (rewrite L; lia).
-    apply write_at_skipn. exact Hoff.
-  - apply write_at_read; assumption.
+  { rewrite L. replace (HS * start + HS * S n) with ((start + S n) * HS) by lia.
+    apply Nat.div_mul. unfold HS; lia. }
+  assert (Hio : io (connect_write s start batch) = firstn (HS * start) (io s) ++ batch).
+  { unfold connect_write, do_write; cbn [io]. apply write_at_prefix; assumption. }
+  split; [exact Hio|]. split; [unfold connect_write; cbn [hsize]; exact Hsz|].
+  split; [|split; [reflexivity|]].
+  - rewrite Hio. unfold connect_write; cbn [hsize]. rewrite Hsz, app_length, firstn_length, L. lia.
+  - rewrite Hio. rewrite chunks_app by (rewrite firstn_length; lia). f_equal.
+    apply chunks_ext. rewrite firstn_firstn_le by lia. reflexivity.
 Qed.
 
 (* ------------------------------------------------------------------------------------------ *)
 (* the chain invariant over every sequence of connect calls                                   *)
 (* ------------------------------------------------------------------------------------------ *)
-(* (state, end of the most recently connected batch, "every accepted batch so far was connected at or
-   below the end of the batch accepted before it") *)
-Definition tstate := (st * nat * bool)%type.
+Definition cinv (c : cfg) (s : st) : Prop := wf s /\ valid_chain c (chunks (hsize s) (io s)).
 
-Definition cstep (c : cfg) (t : tstate) (op : nat * bytes) : tstate :=
-  let '(s, e, g) := t in
-  let '(s', r) := connect c s (fst op) (snd op) in
-  match r with
-  | COk (S n) => (s', fst op + S n, g && Nat.leb (fst op) e)
-  | _ => (s', e, g)
+Lemma connect_inv c s start batch : cinv c s -> cinv c (fst (connect c s start batch)).
+Proof.
+  intros [W V]. destruct (connect c s start batch) as [s' r] eqn:E. cbn [fst].
+  apply connect_cases in E. destruct E as [(n & -> & L & Hs & Val & ->) | [-> _]]; [|split; assumption].
+  destruct (connect_write_spec s start batch n W Hs L) as (_ & Hsz & Hlen & _ & Hc).
+  split; [unfold wf; lia|].
+  rewrite Hsz, Hc. apply valid_extension; [|exact Val].
+  apply (valid_chain_prefix c start (hsize s)); assumption.
+Qed.
+
+Definition run_connects (c : cfg) (s : st) (ops : list (nat * bytes)) : st :=
+  fold_left (fun s op => fst (connect c s (fst op) (snd op))) ops s.
+
+Theorem chain_invariant c ops : forall s, cinv c s -> cinv c (run_connects c s ops).
+Proof.
+  induction ops as [|op ops IH]; intros s H; [exact H|].
+  cbn [run_connects fold_left]. apply IH. apply connect_inv. exact H.
+Qed.
+
+Lemma cinv_empty c : cinv c (mkSt [] 0 []).
+Proof. split; [unfold wf; cbn; lia | reflexivity]. Qed.
+
+(* all-or-nothing *)
+Theorem connect_all_or_nothing c s start batch s' r : wf s -> connect c s start batch = (s', r) ->
+  (stored r = true ->
+     exists n, r = COk n /\ length batch = HS * n /\ 0 < n /\ start <= hsize s /\
+       io s' = firstn (HS * start) (io s) ++ batch /\ hsize s' = start + n /\ missing s' = missing s /\
+       validate c (below2 (io s) start) (below1 (io s) start) (chunks n batch) = None) /\
+  (stored r = false -> s' = s).
+Proof.
+  intros W E. apply connect_cases in E. destruct E as [(n & -> & L & Hs & Val & ->) | [-> Hr]].
+  - destruct (connect_write_spec s start batch n W Hs L) as (Hio & Hsz & _ & Hm & _).
+    split.
+    + intros _. exists (S n). repeat split; try assumption; lia.
+    + discriminate.
+  - split; [intro H; congruence | reflexivity].
+Qed.
+(* ---- statement forms used in Props ---- *)
+Definition stored_chain (s : st) : list bytes := chunks (hsize s) (io s).
+
+Theorem chain_invariant_rules c ops s :
+  wf s -> chain_rules c (stored_chain s) ->
+  let s' := run_connects c s ops in
+  wf s' /\ chain_rules c (stored_chain s').
+Proof.
+  intros W R. apply valid_chain_rules in R.
+  destruct (chain_invariant c ops s (conj W R)) as [W' V'].
+  split; [exact W'|]. apply valid_chain_rules. exact V'.
+Qed.
+
+Theorem connect_valid_accepted c s start batch n :
+  wf s -> length batch = HS * S n -> start <= hsize s ->
+  chain_rules c (chunks start (io s) ++ chunks (S n) batch) ->
+  connect c s start batch = (connect_write s start batch, COk (S n)).
+Proof.
+  intros W L Hs R. apply connect_accepts; try assumption.
+  apply valid_chain_rules in R. apply valid_extension_inv in R. exact R.
+Qed.
+
+(* an accepted batch, together with what lies below it, obeys the rules provided the part below does *)
+Theorem connect_accepted_valid c s start batch s' n :
+  wf s -> connect c s start batch = (s', COk (S n)) ->
+  chain_rules c (chunks start (io s)) ->
+  chain_rules c (stored_chain s') /\
+  stored_chain s' = chunks start (io s) ++ chunks (S n) batch.
+Proof.
+  intros W E R. apply connect_cases in E.
+  destruct E as [(m & Hr & L & Hs & Val & ->) | [_ Hr]]; [|discriminate].
+  inversion Hr; subst m. clear Hr.
+  destruct (connect_write_spec s start batch n W Hs L) as (_ & Hsz & _ & _ & Hc).
+  unfold stored_chain. rewrite Hsz, Hc. split; [|reflexivity].
+  apply valid_chain_rules. apply valid_extension; [|exact Val].
+  apply valid_chain_rules. exact R.
+Qed.
+
+(* ------------------------------------------------------------------------------------------ *)
+(* connecting a batch in pieces = connecting it whole                                         *)
+(* ------------------------------------------------------------------------------------------ *)
+Lemma st_eq (a b : st) : io a = io b -> hsize a = hsize b -> missing a = missing b -> a = b.
+Proof. destruct a, b; cbn; intros; subst; reflexivity. Qed.
+
+Lemma below_after_write s start a na : wf s -> start <= hsize s -> length a = HS * S na ->
+  let s1 := connect_write s start a in
+  (below2 (io s1) (start + S na), below1 (io s1) (start + S na)) =
+  adv (below2 (io s) start) (below1 (io s) start) (chunks (S na) a).
+Proof.
+  intros W Hs L. cbn zeta.
+  destruct (connect_write_spec s start a na W Hs L) as (_ & _ & _ & _ & Hc).
+  rewrite below_adv, Hc, adv_app, <- below_adv. reflexivity.
+Qed.
+
+Lemma connect_write_twice s start a b na nb : wf s -> start <= hsize s ->
+  length a = HS * S na -> length b = HS * S nb ->
+  connect_write (connect_write s start a) (start + S na) b = connect_write s start (a ++ b).
+Proof.
+  intros W Hs La Lb.
+  destruct (connect_write_spec s start a na W Hs La) as (Hio1 & Hsz1 & Hlen1 & Hm1 & _).
+  assert (W1 : wf (connect_write s start a)) by (unfold wf; lia).
+  assert (Lab : length (a ++ b) = HS * S (na + S nb)) by (rewrite app_length, La, Lb; lia).
+  destruct (connect_write_spec (connect_write s start a) (start + S na) b nb W1 ltac:(lia) Lb)
+    as (Hio2 & Hsz2 & _ & Hm2 & _).
+  destruct (connect_write_spec s start (a ++ b) (na + S nb) W Hs Lab) as (Hio & Hsz & _ & Hm & _).
+  apply st_eq.
+  - rewrite Hio2, Hio, Hio1. rewrite firstn_all2; [rewrite app_assoc; reflexivity|].
+    rewrite app_length, firstn_length, La. unfold wf in W. unfold HS in *. lia.
+  - lia.
+  - congruence.
+Qed.
+
+Theorem split_batches c s start a b na nb :
+  wf s -> length a = HS * S na -> length b = HS * S nb ->
+  forall s2,
+  (connect c s start (a ++ b) = (s2, COk (S na + S nb)) <->
+   exists s1, connect c s start a = (s1, COk (S na)) /\ connect c s1 (start + S na) b = (s2, COk (S nb))).
+Proof.
+  intros W La Lb s2.
+  assert (Lab : length (a ++ b) = HS * S (na + S nb)) by (rewrite app_length, La, Lb; lia).
+  assert (Hch : chunks (S (na + S nb)) (a ++ b) = chunks (S na) a ++ chunks (S nb) b).
+  { replace (S (na + S nb)) with (S na + S nb) by lia. apply chunks_app. exact La. }
+  split.
+  - intro E. apply connect_cases in E. destruct E as [(n & Hr & L & Hs & Val & ->) | [_ Hr]]; [|discriminate].
+    assert (n = na + S nb) by (inversion Hr; lia). subst n. clear Hr.
+    rewrite Hch, validate_app in Val.
+    destruct (validate c (below2 (io s) start) (below1 (io s) start) (chunks (S na) a)) eqn:Va; [discriminate|].
+    exists (connect_write s start a). split; [apply connect_accepts; assumption|].
+    destruct (connect_write_spec s start a na W Hs La) as (_ & Hsz1 & Hlen1 & _ & _).
+    rewrite <- (connect_write_twice s start a b na nb W Hs La Lb).
+    apply connect_accepts; [exact Lb | lia |].
+    pose proof (below_after_write s start a na W Hs La) as Hb. cbn zeta in Hb.
+    apply (f_equal fst) in Hb as Hb2. apply (f_equal snd) in Hb as Hb1. cbn [fst snd] in Hb1, Hb2.
+    rewrite Hb1, Hb2. exact Val.
+  - intros (s1 & E1 & E2).
+    apply connect_cases in E1. destruct E1 as [(n & Hr & _ & Hs & Va & ->) | [_ Hr]]; [|discriminate].
+    assert (n = na) by (inversion Hr; lia). subst n. clear Hr.
+    apply connect_cases in E2. destruct E2 as [(n & Hr & _ & _ & Vb & ->) | [_ Hr]]; [|discriminate].
+    assert (n = nb) by (inversion Hr; lia). subst n. clear Hr.
+    rewrite (connect_write_twice s start a b na nb W Hs La Lb).
+    replace (S na + S nb) with (S (na + S nb)) by lia.
+    apply connect_accepts; [exact Lab | exact Hs |].
+    rewrite Hch, validate_app, Va.
+    pose proof (below_after_write s start a na W Hs La) as Hb. cbn zeta in Hb.
+    apply (f_equal fst) in Hb as Hb2. apply (f_equal snd) in Hb as Hb1. cbn [fst snd] in Hb1, Hb2.
+    rewrite <- Hb1, <- Hb2. exact Vb.
+Qed.
+
+(* ------------------------------------------------------------------------------------------ *)
+(* checkpointed chunks                                                                        *)
+(* ------------------------------------------------------------------------------------------ *)
+Theorem checkpoint_only c s height chunk s' r :
+  fetch_chunk sha256 c s height chunk = (s', r) ->
+  (r = FStored <-> lookup (chunk_start height) (checkpoints c) = Some (dsha chunk)) /\
+  (r <> FStored -> s' = s) /\
+  (r = FStored -> io s' = write_at (HS * chunk_start height) chunk (io s)).
+Proof.
+  unfold fetch_chunk. destruct (lookup (chunk_start height) (checkpoints c)) as [e|] eqn:El.
+  - destruct (bytes_eqb (dsha chunk) e) eqn:Eb; intro H; inversion H; subst; clear H.
+    + apply bytes_eqb_eq in Eb. subst e. split; [tauto|]. split; [congruence|]. intros _. reflexivity.
+    + apply bytes_eqb_neq in Eb. split; [|split; [reflexivity | discriminate]].
+      split; [discriminate|]. intro H. inversion H. congruence.
+  - intro H; inversion H; subst; clear H. split; [|split; [reflexivity | discriminate]].
+    split; discriminate.
+Qed.
+
+Theorem ensure_chunk_only c s height chunk s' r :
+  ensure_chunk_at sha256 c s height chunk = (s', r) ->
+  s' <> s -> lookup (chunk_start height) (checkpoints c) = Some (dsha chunk).
+Proof.
+  unfold ensure_chunk_at. destruct (has_header sha256 c s height).
+  - intro H; inversion H; subst. congruence.
+  - intros H Hne. destruct (checkpoint_only c s height chunk s' r H) as (H1 & H2 & _).
+    destruct r; try (exfalso; apply Hne; apply H2; discriminate). apply H1. reflexivity.
+Qed.
+End Chain.
+
+(* ------------------------------------------------------------------------------------------ *)
+(* repair / open                                                                              *)
+(* ------------------------------------------------------------------------------------------ *)
+Lemma chunks_skipn_list a m b : skipn a (chunks (a + m) b) = chunks m (skipn (HS * a) b).
+Proof. rewrite chunks_add. apply skipn_eq_app. apply chunks_length. Qed.
+
+Lemma chunks_firstn_list j k b : j <= k -> firstn j (chunks k b) = chunks j b.
+Proof.
+  intro H. replace k with (j + (k - j)) by lia. rewrite chunks_add.
+  apply firstn_eq_app. apply chunks_length.
+Qed.
+
+Lemma chunks_of_firstn j b : chunks j (firstn (HS * j) b) = chunks j b.
+Proof. apply chunks_ext. rewrite firstn_firstn_le by lia. reflexivity. Qed.
+
+Lemma visited_end_tight start sz : visited_end start sz sz = Nat.max start sz.
+Proof.
+  unfold visited_end. destruct (Nat.ltb start sz) eqn:E.
+  - apply Nat.ltb_lt in E. euc.
+  - apply Nat.ltb_ge in E. lia.
+Qed.
+
+Lemma nth_error_skipn {A} (a j : nat) (l : list A) : nth_error (skipn a l) j = nth_error l (a + j).
+Proof.
+  revert l. induction a as [|a IH]; intro l; [reflexivity|].
+  destruct l as [|x l]; [destruct j; reflexivity|]. cbn [skipn Nat.add nth_error]. apply IH.
+Qed.
+
+Definition tight (s : st) : Prop := hsize s = length (io s) / HS.
+
+Lemma tight_wf s : tight s -> wf s.
+Proof. unfold tight, wf. intro H. rewrite H. euc. Qed.
+
+Section Repair.
+Variable sha256 : bytes -> bytes.
+Local Notation dsha := (dsha sha256).
+Local Notation scan := (scan sha256).
+Local Notation repair := (repair sha256).
+Local Notation repair_genesis_ok := (repair_genesis_ok sha256).
+
+(* each header's prev field is the hash of the header before it *)
+Fixpoint links (prev : bytes) (hs : list bytes) : Prop :=
+  match hs with [] => True | x :: r => h_prev x = dsha prev /\ links x r end.
+Definition linked (l : list bytes) : Prop := match l with [] => True | x :: r => links x r end.
+
+Lemma links_firstn j : forall p l, links p l -> links p (firstn j l).
+Proof.
+  induction j as [|j IH]; intros p l H; [exact I|].
+  destruct l as [|x r]; [exact I|]. cbn [firstn links] in *. destruct H as [H1 H2]. split; [exact H1 | apply IH; exact H2].
+Qed.
+
+Lemma linked_firstn j l : linked l -> linked (firstn j l).
+Proof.
+  destruct l as [|x r]; [destruct j; auto|]. destruct j as [|j]; [exact (fun _ => I)|].
+  cbn [firstn linked]. apply links_firstn.
+Qed.
+
+(* index form *)
+Lemma links_nth p l : links p l ->
+  forall i a b, nth_error (p :: l) i = Some a -> nth_error l i = Some b -> h_prev b = dsha a.
+Proof.
+  revert p. induction l as [|x r IH]; intros p H i a b Ha Hb; [destruct i; discriminate|].
+  destruct H as [H1 H2]. destruct i as [|i].
+  - cbn in Ha, Hb. inversion Ha; inversion Hb; subst. exact H1.
+  - cbn [nth_error] in Ha, Hb. apply (IH x H2 i a b Ha Hb).
+Qed.
+
+Lemma linked_nth l : linked l ->
+  forall i a b, nth_error l i = Some a -> nth_error l (S i) = Some b -> h_prev b = dsha a.
+Proof.
+  destruct l as [|x r]; intros H i a b Ha Hb; [destruct i; discriminate|].
+  apply (links_nth x r H i a b Ha Hb).
+Qed.
+
+Lemma nth_linked l :
+  (forall i a b, nth_error l i = Some a -> nth_error l (S i) = Some b -> h_prev b = dsha a) -> linked l.
+Proof.
+  destruct l as [|x r]; [exact (fun _ => I)|]. cbn [linked]. revert x.
+  induction r as [|y r IH]; intros x H; [exact I|].
+  split; [apply (H 0 x y); reflexivity|]. apply IH. intros i a b Ha Hb. apply (H (S i) a b); assumption.
+Qed.
+
+Lemma scan_spec hs : forall prev h,
+  match scan prev h hs with
+  | None => links prev hs
+  | Some k => exists i, k = h + i /\ i < length hs /\ links prev (firstn i hs) /\ ~ links prev (firstn (S i) hs)
   end.
-
-Definition crun (c : cfg) (t : tstate) (ops : list (nat * bytes)) : tstate := fold_left (cstep c) ops t.
-
-Definition cinv (c : cfg) (t : tstate) (w : nat) : Prop :=
-  let '(s, e, g) := t in
-  wf s /\ w <= hsize s /\ valid_chain c (chunks w (io s)) /\ (g = true -> e = w).
-
-Lemma cstep_inv c t op w : cinv c t w -> exists w', cinv c (cstep c t op) w'.
 Proof.
-  destruct t as [[s e] g]. destruct op as [start batch]. intros (W & Hw & V & G).
-  unfold cstep. cbn [fst snd].
-  destruct (connect c s start batch) as [s' r] eqn:E.
-  apply connect_cases in E. destruct E as [(n & -> & L & Hs & Val & ->) | [-> Hr]].
-  - destruct (do_write_chunks s start batch n W Hs L) as (Hc & Hsz & W' & Hpre & _ & _).
-    destruct (Nat.leb start w) eqn:Elw.
-    + apply Nat.leb_le in Elw. exists (start + S n). unfold cinv.
-      split; [exact W'|]. split; [lia|]. split.
-      * rewrite Hc. apply valid_extension; [|exact Val].
-        apply (valid_chain_prefix c start w); assumption.
-      * intros _. reflexivity.
-    + apply Nat.leb_gt in Elw. exists w. unfold cinv.
-      split; [exact W'|]. split; [lia|]. split.
-      * replace (chunks w (io (do_write s start batch))) with (chunks w (io s)); [exact V|].
-        apply chunks_ext.
-        rewrite <- (firstn_firstn_le (HS * w) (HS * start) (io s)) by (unfold HS; lia).
-        rewrite <- (firstn_firstn_le (HS * w) (HS * start) (io (do_write s start batch))) by (unfold HS; lia).
-        rewrite Hpre. reflexivity.
-      * intro Hg. apply andb_true_iff in Hg as [Hg1 Hg2]. apply Nat.leb_le in Hg2.
-        specialize (G Hg1). lia.
-  - exists w. destruct r as [[|k]| | |]; cbn in Hr; try discriminate; unfold cinv; auto.
+  induction hs as [|x r IH]; intros prev h; [exact I|].
+  cbn [scan]. destruct (bytes_eqb (h_prev x) (dsha prev)) eqn:E.
+  - apply bytes_eqb_eq in E. specialize (IH x (S h)). destruct (scan x (S h) r) as [k|].
+    + destruct IH as (i & -> & Hi & L1 & L2). exists (S i). cbn [length firstn links].
+      split; [lia|]. split; [lia|]. split; [split; assumption|]. intros [_ H]. apply L2. exact H.
+    + split; assumption.
+  - apply bytes_eqb_neq in E. exists 0. cbn [length firstn links]. split; [lia|]. split; [lia|].
+    split; [exact I|]. intros [H _]. contradiction.
 Qed.
 
-Lemma crun_inv c ops : forall t w, cinv c t w -> exists w', cinv c (crun c t ops) w'.
+(* the first broken link, in index form *)
+Lemma first_break p l i : links p (firstn i l) -> ~ links p (firstn (S i) l) -> i < length l ->
+  exists a b, nth_error (p :: l) i = Some a /\ nth_error l i = Some b /\ h_prev b <> dsha a.
 Proof.
-  induction ops as [|op ops IH]; intros t w H; [exists w; exact H|].
-  cbn [crun fold_left]. destruct (cstep_inv c t op w H) as [w' H']. apply (IH _ w' H').
+  revert p l. induction i as [|i IH]; intros p l H1 H2 Hi.
+  - destruct l as [|x r]; [cbn in Hi; lia|]. exists p, x. cbn [firstn links] in H2.
+    repeat split; try reflexivity. intro E. apply H2. split; [exact E | exact I].
+  - destruct l as [|x r]; [cbn in Hi; lia|]. cbn [firstn links length] in *.
+    destruct H1 as [E H1]. destruct (IH x r H1) as (a & b & Ha & Hb & Hne); [tauto | lia |].
+    exists a, b. cbn [nth_error]. auto.
 Qed.
 
-Theorem chain_invariant c ops s0 e0 :
-  wf s0 -> e0 <= hsize s0 -> valid_chain c (chunks e0 (io s0)) ->
-  forall s e g, crun c (s0, e0, true) ops = (s, e, g) -> g = true ->
-  valid_chain c (chunks e (io s)) /\ e <= hsize s /\ wf s.
+Lemma repair_hs s start : tight s ->
+  chunks (visited_end start (hsize s) (length (io s) / HS) - start) (skipn (HS * start) (io s))
+  = skipn start (stored_chain s).
 Proof.
-  intros W He V s e g R Hg.
-  destruct (crun_inv c ops (s0, e0, true) e0) as [w Hi].
-  { unfold cinv. auto. }
-  rewrite R in Hi. destruct Hi as (W' & Hw & V' & G). specialize (G Hg). subst w. auto.
+  intro T. unfold tight in T. rewrite <- T. rewrite visited_end_tight. unfold stored_chain.
+  destruct (Nat.le_gt_cases (hsize s) start) as [H|H].
+  - replace (Nat.max start (hsize s) - start) with 0 by lia.
+    rewrite (skipn_all2 (n:=start) (l:=chunks (hsize s) (io s))) by (rewrite chunks_length; lia). reflexivity.
+  - replace (Nat.max start (hsize s) - start) with (hsize s - start) by lia.
+    rewrite <- chunks_skipn_list. f_equal. f_equal. lia.
 Qed.
+
+(* What repair does, completely: either nothing -- then everything from `start` upwards links (and for
+   start = 0 height 0 is the genesis block) -- or it cuts the chain at k-1 where k is the first height
+   whose link to its predecessor is broken (k = 0: the genesis test failed). *)
+Theorem repair_spec c s start : tight s ->
+  let s' := repair c s start in
+  let H := stored_chain s in
+  (s' = s /\ linked (skipn start H) /\
+     (start = 0 -> forall x, nth_error H 0 = Some x -> repair_genesis_ok c x = true))
+  \/ (exists k, k < length H /\
+        io s' = firstn (HS * (k - 1)) (io s) /\ hsize s' = k - 1 /\ missing s' = missing s /\
+        stored_chain s' = firstn (k - 1) H /\ tight s' /\
+        linked (skipn start (firstn k H)) /\
+        ((k = 0 /\ start = 0 /\ exists x, nth_error H 0 = Some x /\ repair_genesis_ok c x = false)
+         \/ (start < k /\ exists x y, nth_error H (k - 1) = Some x /\ nth_error H k = Some y /\
+                                      h_prev y <> dsha x))).
+Proof.
+  intro T. cbn zeta. unfold repair. rewrite (repair_hs s start T).
+  pose proof (tight_wf s T) as W. unfold wf in W.
+  assert (LH : length (stored_chain s) = hsize s) by apply chunks_length.
+  destruct (skipn start (stored_chain s)) as [|x r] eqn:Es.
+  { left. cbn [repair_fail]. split; [reflexivity|]. split; [exact I|].
+    intros -> y Hy. cbn [skipn] in Es. rewrite Es in Hy. discriminate. }
+  assert (Lx : length (stored_chain s) = start + S (length r)).
+  { apply (f_equal (@length _)) in Es. rewrite skipn_length in Es. cbn [length] in Es. lia. }
+  assert (Hnth : forall j, nth_error (x :: r) j = nth_error (stored_chain s) (start + j)).
+  { intro j. rewrite <- Es. apply nth_error_skipn. }
+  (* facts about a cut at k-1 < hsize *)
+  assert (Cut : forall k, k < length (stored_chain s) ->
+     let io' := firstn (HS * (k - 1)) (io s) in
+     length io' / HS = k - 1 /\ chunks (k - 1) io' = firstn (k - 1) (stored_chain s)).
+  { intros k Hk. cbn zeta. split.
+    - rewrite firstn_length. replace (Nat.min (HS * (k - 1)) (length (io s))) with ((k - 1) * HS) by (unfold HS in *; lia).
+      apply Nat.div_mul. unfold HS; lia.
+    - rewrite chunks_of_firstn. unfold stored_chain. rewrite chunks_firstn_list by lia. reflexivity. }
+  cbn [repair_fail].
+  destruct (Nat.eqb start 0 && negb (repair_genesis_ok c x)) eqn:Eg.
+  - apply andb_true_iff in Eg as [E0 Eg]. apply Nat.eqb_eq in E0. subst start.
+    apply negb_true_iff in Eg.
+    right. exists 0. destruct (Cut 0 ltac:(lia)) as [C1 C2]. cbn [Nat.sub] in *.
+    split; [lia|]. cbn [io hsize missing]. split; [reflexivity|]. split; [exact C1|]. split; [reflexivity|].
+    split; [unfold stored_chain; cbn [io hsize]; rewrite C1; exact C2|].
+    split; [unfold tight; cbn [io hsize]; reflexivity|].
+    split; [exact I|]. left. split; [reflexivity|]. split; [reflexivity|].
+    exists x. split; [|exact Eg]. rewrite <- (Hnth 0). reflexivity.
+  - pose proof (scan_spec r x (S start)) as Hsc. destruct (scan x (S start) r) as [k|].
+    + destruct Hsc as (i & -> & Hi & L1 & L2).
+      right. exists (S start + i). destruct (Cut (S start + i) ltac:(lia)) as [C1 C2].
+      replace (S start + i - 1) with (start + i) in * by lia.
+      split; [lia|]. cbn [io hsize missing]. split; [reflexivity|]. split; [exact C1|]. split; [reflexivity|].
+      split; [unfold stored_chain; cbn [io hsize]; rewrite C1; exact C2|].
+      split; [unfold tight; cbn [io hsize]; reflexivity|].
+      split.
+      * rewrite skipn_firstn_comm, Es. replace (S start + i - start) with (S i) by lia.
+        cbn [firstn linked]. exact L1.
+      * right. split; [lia|].
+        destruct (first_break x r i L1 L2 Hi) as (a & b & Ha & Hb & Hne).
+        exists a, b. rewrite (Hnth i) in Ha. split; [exact Ha|]. split; [|exact Hne].
+        rewrite <- Hb. change (nth_error r i) with (nth_error (x :: r) (S i)). rewrite Hnth. f_equal. lia.
+    + left. split; [reflexivity|]. split; [exact Hsc|].
+      intros -> y Hy. cbn [Nat.eqb andb] in Eg. apply negb_false_iff in Eg.
+      rewrite <- (Hnth 0) in Hy. cbn in Hy. inversion Hy; subst. exact Eg.
+Qed.
+End Repair.
